@@ -23,6 +23,7 @@ from dliswriter.utils.internal.types import (
 )
 from dliswriter.utils.internal.sized_generator import SizedGenerator
 from dliswriter.utils import enums
+from dliswriter.utils.internal.converters import ReprCodeConverter
 from dliswriter.logical_record.core.eflr import EFLRItem, AttrSetup
 from dliswriter.logical_record.misc import StorageUnitLabel
 from dliswriter.logical_record import eflr_types
@@ -737,6 +738,9 @@ class LogicalFile:
 
         if data is not None and not isinstance(data, np.ndarray):
             raise ValueError(f"Expected a numpy.ndarray, got a {type(data)}: {data}")
+
+        if cast_dtype is not None:
+            ReprCodeConverter.validate_numpy_dtype(cast_dtype)
 
         dataset_name = self._get_unique_dataset_name(
             channel_name=name, dataset_name=dataset_name
@@ -1524,13 +1528,13 @@ class LogicalFile:
             A configured OriginItem instance.
         """
 
+        origins: list[eflr_types.OriginItem] = list(self._eflr_sets.get_all_items_for_set_type(eflr_types.OriginSet))
+        new_origin_ref = self.next_available_origin_ref(origin_reference, origins)
+
         parent = self.physical_file._eflr_sets.get_or_make_set(
             eflr_types.OriginSet, set_name=set_name
         )
         self._eflr_sets.try_add_set(parent)
-
-        origins: list[eflr_types.OriginItem] = list(self._eflr_sets.get_all_items_for_set_type(eflr_types.OriginSet))
-        new_origin_ref = self.next_available_origin_ref(origin_reference, origins)
         """ origins_refs = [o.origin_reference for o in origins]
         next_available_origin_ref: int = 0
         if origin_reference:
